@@ -77,7 +77,7 @@ pub fn gen_any_small(rng: &mut Rng, tier: Tier, small: bool) -> Case {
             let keys: Vec<Vec<u8>> = spec.entries.materialize().into_iter().map(|(k, _)| k).collect();
             let qkind = if rng.chance(1, 2) { 1 } else { 2 };
             let queries = crate::props_iter::gen_queries(rng, &keys, if small { 4 } else { 12 }, qkind);
-            Case::Iter(IterCase { spec, env: EnvPlan::whole(), queries, v1: false })
+            Case::Iter(IterCase { spec, env: EnvPlan::whole(), queries, v1: false, interleave: false })
         }
         3 => {
             let mut m = crate::props_merge::gen_merge_case(rng, Tier::Quick);
@@ -494,7 +494,7 @@ pub fn check_c12(case: &Case, st: &mut Stats) -> Verdict {
         if sticky {
             st.c.inc("sticky_fault_runs");
         }
-        if let Some(v) = run_with(vec![FaultSpec { k, err, sticky }], st) {
+        if let Some(v) = run_with(vec![FaultSpec { k, err, sticky, merge_nth: 0 }], st) {
             return Some(v);
         }
     }
@@ -508,7 +508,7 @@ pub fn check_c12(case: &Case, st: &mut Stats) -> Verdict {
             if a == b {
                 continue;
             }
-            let faults = vec![FaultSpec { k: a, err: rng.below(40) as u8, sticky: false }, FaultSpec { k: b, err: rng.below(40) as u8, sticky: false }];
+            let faults = vec![FaultSpec { k: a, err: rng.below(40) as u8, sticky: false, merge_nth: 0 }, FaultSpec { k: b, err: rng.below(40) as u8, sticky: false, merge_nth: 0 }];
             st.c.inc("double_fault_runs");
             if let Some(v) = run_with(faults, st) {
                 return Some(v);
@@ -570,9 +570,26 @@ pub fn gen_c17(rng: &mut Rng, tier: Tier) -> Case {
         Case::Sort(s)
     } else {
         let mut c = gen_any_small(rng, tier, false);
-        let env = gen::gen_env(rng, true);
+        let mut env = gen::gen_env(rng, true);
         if let Case::Sort(s) = &mut c {
             s.knobs.creator = 0;
+        }
+        // one scenario in three: a component (source, sink, chunk creator, merge function) fails
+        // once or twice and the caller keeps using the object; whatever the calls then return,
+        // they must stay memory-safe
+        if rng.chance(1, 3) {
+            for _ in 0..rng.urange(1, 2) {
+                env.faults.push(crate::env::FaultSpec { k: rng.log_uniform(1, 400), err: rng.below(40) as u8, sticky: false, merge_nth: 0 });
+            }
+            env.faults.sort_by_key(|f| f.k);
+            env.faults.dedup_by_key(|f| f.k);
+        }
+        // and one merge in four that keeps iterating after its merge function failed once
+        if let Case::Merge(m) = &mut c {
+            if rng.chance(1, 4) {
+                m.out_mode = 0;
+                env.faults = vec![crate::env::FaultSpec { k: 0, err: 0, sticky: false, merge_nth: rng.log_uniform(1, 40) as u32 }];
+            }
         }
         with_env(&c, env)
     }
@@ -595,6 +612,9 @@ pub fn check_c17(case: &Case, st: &mut Stats) -> Verdict {
         let nulls0 = crate::alloc::NULLS_RETURNED.load(std::sync::atomic::Ordering::SeqCst);
         let mut opts = RunOpts::default();
         opts.lean = matches!(case, Case::Sort(s) if s.inserts.len() > 50_000);
+        let faulty = !plan.faults.is_empty();
+        opts.continue_after_err = faulty;
+        opts.record_merge = matches!(case, Case::Merge(_));
         let r = run_case(case, &plan, &opts);
         crate::exec::NULL_AT.store(usize::MAX, std::sync::atomic::Ordering::SeqCst);
         crate::alloc::disarm();
@@ -610,11 +630,38 @@ pub fn check_c17(case: &Case, st: &mut Stats) -> Verdict {
             let documented = matches!(&rec.res, Res::Panic(m) if m.contains("unable to allocate"));
             if null_fired && documented {
                 st.c.inc("fired.null_allocation_documented_panic");
+            } else if faulty && !r.env.fired().is_empty() {
+                // what a call returns (or whether it panics) once the caller went on after a failed
+                // component is not this property's business; only memory safety and size arithmetic are
+                st.c.inc("post_fault_panic_not_judged");
             } else {
                 bad = Some((format!("panic.{}", rec.op), format!("call #{} {} -> {}", i, rec.op, rec.res.short())));
             }
         } else if null_fired {
             bad = Some(("null-alloc-ignored".to_string(), "the allocator returned null for the sorter buffer but no panic was raised".to_string()));
+        }
+        if faulty && !r.env.fired().is_empty() {
+            st.c.inc("runs_continued_after_a_failed_component");
+        }
+        // freed memory is filled with 0xDD: a value handed to the merge function that is all 0xDD
+        // and is not a value any source stores under that key was read through a dangling slice
+        if let Case::Merge(m) = case {
+            let sources: Vec<Vec<(Vec<u8>, Vec<u8>)>> = m.sources.iter().map(|s| s.entries.materialize()).collect();
+            let union = crate::model::merge_union(&sources);
+            for (k, vals) in r.env.0.borrow().merge_calls.iter() {
+                for v in vals {
+                    if v.len() >= 4 && v.iter().all(|b| *b == 0xDD) && !union.get(k).map(|u| u.contains(v)).unwrap_or(false) {
+                        bad = Some(("use-after-free".to_string(), format!("the merge function was handed a {}-byte value made of the allocator's poison byte for key {:02x?}: it was read through a slice into freed memory", v.len(), k)));
+                    }
+                }
+            }
+            st.c.add("merge_calls_inspected_for_poison", r.env.0.borrow().merge_calls.len() as u64);
+            if let Some(f) = r.env.fired().iter().find(|f| f.kind == IoKind::Merge) {
+                let after = r.recs.iter().filter(|x| x.op == "MergerIter::next" && x.clock_before >= f.k).count();
+                if after > 0 {
+                    st.c.inc("probe.next_called_after_the_merge_function_failed");
+                }
+            }
         }
         let setup = r.setup_err.clone();
         drop(r);
@@ -749,7 +796,7 @@ pub fn gen_tiny(rng: &mut Rng) -> Case {
             let spec = file(rng, n);
             let keys: Vec<Vec<u8>> = spec.entries.materialize().into_iter().map(|(k, _)| k).collect();
             let queries = crate::props_iter::gen_queries(rng, &keys, 3, 2);
-            Case::Iter(IterCase { spec, env, queries, v1: false })
+            Case::Iter(IterCase { spec, env, queries, v1: false, interleave: false })
         }
         _ => {
             let k = rng.urange(1, 3);
